@@ -806,7 +806,7 @@ def _group_func_wrap(
     values, orig_types = zip(*list(map(_cast_timestamps_to_ints, values)))
     orig_type = orig_types[0]
 
-    if reduce_func_name == "sum_squares":
+    if "sum_squares" in reduce_func_name:
         values = [v.astype(float) for v in values]
 
     if values_are_chunked:
